@@ -2381,3 +2381,87 @@ def null_by_identity(check: Check, repo: Repo, rule: str = "NULL-BY-IDENTITY") -
     check.ob(rule, mod.tree, f"execution/executor.py: {n} conditions", not bad, "no result value is tested by truthiness" if not bad else "see above", nontrivial=False)
     if n < 100:
         raise AnalysisError("executor.py: conditions not found")
+
+
+def visited_then_collected(check: Check, repo: Repo, rule: str = "VISITED-COLLECTED") -> None:
+    check.rule(
+        rule,
+        "collect_fields_impl marks a fragment as visited only when it goes on to collect it: from every store into "
+        "`visited_fragment_names[...]` every exception-free path reaches the recursive collect_fields_impl call before the "
+        "loop moves on to the next selection. A `continue` between the mark and the collection (an @skip/@include test, "
+        "a type-condition test) drops every later, enabled spread of the same fragment in the selection set",
+    )
+    fn = repo.func("execution.collect_fields", "collect_fields_impl")
+    loops = [s for s in fn.body if isinstance(s, ast.For)]
+    if len(loops) != 1:
+        raise AnalysisError("collect_fields_impl: selection loop not found")
+    loop = loops[0]
+    cfg = CFG(fn)
+    head = cfg.nodes_of(loop)[0]
+    stores = [s for s in ast.walk(loop) if isinstance(s, ast.Subscript) and isinstance(s.ctx, ast.Store)
+              and isinstance(s.value, ast.Name) and "visited" in s.value.id]
+    stores += [c for c in ast.walk(loop) if isinstance(c, ast.Call) and isinstance(c.func, ast.Attribute) and c.func.attr in ("add", "setdefault", "update")
+               and isinstance(c.func.value, ast.Name) and "visited" in c.func.value.id]
+    rec = {nd for c in ast.walk(loop) if isinstance(c, ast.Call) and isinstance(c.func, ast.Name) and c.func.id == fn.name for nd in cfg.node_for_expr(c)}
+    if not stores or not rec:
+        raise AnalysisError("collect_fields_impl: visited-fragment stores or the recursive call not found")
+    for s in stores:
+        st = cfg.node_for_expr(s)
+        if not st:
+            continue
+        path = cfg.find_path(st[0], lambda nd: nd is head or nd is cfg.exit, follow=no_exc, avoid=lambda nd: nd in rec)
+        check.ob(rule, s, f"collect_fields_impl: `{unparse(s)}`", path is None,
+                 "every path from the mark reaches the recursive collection" if path is None else
+                 "the fragment is marked visited, but the loop can move on without collecting it (line "
+                 f"{next((nd.ast.lineno for nd in path[1:] if nd.ast is not None and hasattr(nd.ast, 'lineno')), '?')}): "
+                 "a later spread of the same fragment is then skipped as already visited")
+    check.floor(rule, 2, "visited-fragment stores (deferred and non-deferred)")
+
+
+def once_flag_first(check: Check, repo: Repo, rule: str = "ONCE-FLAG-FIRST") -> None:
+    check.rule(
+        rule,
+        "StreamItemQueue runs its abort callback (which closes the source iterator) at most once because every place that "
+        "runs it raises the `_aborted` flag *before* the call, and abort() does nothing but release a parked producer when "
+        "the flag is up. In every method of the class each call of the callback is therefore reached only through a "
+        "`self._aborted = True` store: a call made before the store leaves a window - the callback may suspend - in which "
+        "a concurrent abort() sees the flag down and closes the source a second time",
+    )
+    n = 0
+    cls = repo.cls("execution.incremental.stream_item_queue", "StreamItemQueue")
+    for fn in [s for s in cls.body if isinstance(s, (ast.FunctionDef, ast.AsyncFunctionDef))]:
+        cb = {"self._on_abort"} | {t.id for s in walk_body(fn) if isinstance(s, ast.Assign) and unparse(s.value) == "self._on_abort"
+                                   for t in s.targets if isinstance(t, ast.Name)}
+        calls = [c for c in walk_body(fn) if isinstance(c, ast.Call) and unparse(c.func) in cb]
+        if not calls:
+            continue
+        cfg = CFG(fn)
+        flags = {nd for s in walk_body(fn) if isinstance(s, ast.Assign) and any(unparse(t) == "self._aborted" for t in s.targets)
+                 and isinstance(s.value, ast.Constant) and s.value.value is True for nd in cfg.nodes_of(s)}
+        for c in calls:
+            n += 1
+            goals = set(cfg.node_for_expr(c))
+            # exception edges are followed: the failure handler of _run is one of the callers
+            path = cfg.find_path(cfg.entry, lambda nd: nd in goals, avoid=lambda nd: nd in flags)
+            check.ob(rule, c, f"StreamItemQueue.{fn.name}: `{unparse(c)}`", path is None,
+                     "the flag is raised on every path to the call" if path is None else
+                     "the abort callback is called on a path on which `self._aborted = True` has not been stored yet")
+    if n == 0:
+        raise AnalysisError("StreamItemQueue: no call of the abort callback found")
+    check.floor(rule, 3, "calls of the abort callback (_run, abort, _cleanup)")
+
+
+def work_always_collected(check: Check, repo: Repo, rule: str = "NULLED-ABORTED") -> None:
+    """Clause of NULLED-ABORTED: build_response cannot return without having passed get_incremental_work."""
+    fn = repo.func("execution.incremental.incremental_executor", "IncrementalExecutor.build_response")
+    cfg = CFG(fn)
+    calls = [c for c in walk_body(fn) if isinstance(c, ast.Call) and call_name(c).split(".")[-1] == "get_incremental_work"]
+    if not calls:
+        raise AnalysisError("IncrementalExecutor.build_response: call of get_incremental_work not found")
+    nodes = {nd for c in calls for nd in cfg.node_for_expr(c)}
+    path = cfg.find_path(cfg.entry, lambda nd: nd is cfg.exit, follow=no_exc, avoid=lambda nd: nd in nodes)
+    check.ob(rule, fn, "IncrementalExecutor.build_response: every response passes get_incremental_work()", path is None,
+             "no return path around the call" if path is None else
+             "a response is built without calling get_incremental_work() - the only place where work at a nulled position is "
+             "aborted: a response nulled by a root error leaves early-started groups and streams running and their sources open "
+             f"(line {next((nd.ast.lineno for nd in path if nd.ast is not None and hasattr(nd.ast, 'lineno')), '?')})")
